@@ -101,15 +101,17 @@ CLAIMED = {
     "C01": (
         "Lean 4 theorem about the from_array model (counting, caller/library-chosen common incl. absent ones, many-to-one "
         "mappings, and BOTH construction strategies — per-value where and per-row scan): every cell of the resulting index "
-        "holds the mapped input value (dense abstraction), hence the two strategies are indistinguishable. The final "
-        "to_array step (numpy.full + scatter with the fit_dtype-chosen dtype) is covered by correspondence and the oracle, "
-        "not yet by a theorem (named partial). Tie: from_array results of the real code vs the model (entries, common, "
+        "holds the mapped input value (dense abstraction), hence the two strategies are indistinguishable; and the full round "
+        "trip through to_array (numpy.full + one fancy-index assignment per entry, with and without a mapping on the way back, "
+        "any accepted dtype; with the default dtype it cannot overflow). The 'not mapping' branch of to_array is REGENERATED "
+        "from the source on every run and proved equal to the modelled method for every index and dtype, so the round-trip "
+        "theorem is restated on the current to_array. Tie: from_array results of the real code vs the model (entries, common, "
         "shape) on exhaustive small arrays x the option grid and on arrays shaped to force the scan strategy; oracle = "
         "round trip on the real code via explicit dtype, default dtype and a value mapping.",
         "Trusted: Lean kernel; hand-written from_array/to_array model tied by correspondence; NumPy bincount/unique/where "
         "are inlined as list functions; the strategy switch is modelled in exact arithmetic (float division in the code). "
         "One recorded finding (int64 max) in known_findings.json.",
-        "Lean 4 proof (fold invariants over both construction strategies) + option-grid correspondence",
+        "Lean 4 proof (fold invariants over both construction strategies, scatter lemma) + to_array regenerated from the source (translator) with a bridge theorem + option-grid correspondence",
         "DESIGN.md §5 C01"),
     "C06": (
         "Lean 4 refinement theorems to the dense array for the operations proved so far (copy, shift_common with any or "
